@@ -1814,10 +1814,10 @@ func genCodec(repo, out string) {
 	sb.WriteString(d + "\n")
 	// Data.Decode
 	{
-		sb.WriteString("/-- `r.Read(binary.LittleEndian, &x)` for a `w`-byte unsigned integer through the sticky error reader: nothing is read once an\n    error occurred; a short read is an error -/\n")
-		sb.WriteString("def rdN (w : Nat) (reader : Bytes) (rerr : Bool) : Nat × Bytes × Bool :=\n  if rerr then (0, reader, true) else match decLE w reader with | some (v, rest) => (v, rest, false) | none => (0, reader, true)\n\n")
+		sb.WriteString("/-- `r.Read(binary.LittleEndian, &x)` for a `w`-byte unsigned integer through the sticky error reader: nothing is read once an\n    error occurred; a short read is an error and consumes what was left (io.ReadFull) -/\n")
+		sb.WriteString("def rdN (w : Nat) (reader : Bytes) (rerr : Bool) : Nat × Bytes × Bool :=\n  if rerr then (0, reader, true) else match decLE w reader with | some (v, rest) => (v, rest, false) | none => (0, [], true)\n\n")
 		sb.WriteString("/-- the same for a byte slice of length `n` -/\n")
-		sb.WriteString("def rdB (n : Nat) (reader : Bytes) (rerr : Bool) : Bytes × Bytes × Bool :=\n  if rerr then ([], reader, true) else if reader.length < n then ([], reader, true) else (reader.take n, reader.drop n, false)\n\n")
+		sb.WriteString("def rdB (n : Nat) (reader : Bytes) (rerr : Bool) : Bytes × Bytes × Bool :=\n  if rerr then ([], reader, true) else if reader.length < n then ([], [], true) else (reader.take n, reader.drop n, false)\n\n")
 		fdd := findFunc(p, "Data", "Decode")
 		rn := func(v string, w string) (string, func(string) string) {
 			return "r.Read(binary.LittleEndian, &" + v + ")", func(tail string) string {
@@ -1878,6 +1878,110 @@ func genCodec(repo, out string) {
 			dd = fmt.Sprintf("/-- UNTRANSLATABLE: %s -/\ndef decodeData : Unit := ()\n", strings.ReplaceAll(errd.Error(), "-/", "- /"))
 		}
 		sb.WriteString(dd + "\n")
+	}
+	// Index.Encode / Index.Decode
+	{
+		fe := findFunc(p, "Index", "Encode")
+		wi := map[string]func(string) string{}
+		for _, kv := range [][2]string{{"i.DataBlock.Offset", "encLE 8 dbOff"}, {"i.DataBlock.Length", "encLE 8 dbLen"},
+			{"uint16(len(entry.StartKey))", "encLE 2 entry.1.length"}, {"[]byte(entry.StartKey)", "entry.1"},
+			{"uint16(len(entry.EndKey))", "encLE 2 entry.2.1.length"}, {"[]byte(entry.EndKey)", "entry.2.1"},
+			{"entry.DataHandle.Offset", "encLE 8 entry.2.2.1"}, {"entry.DataHandle.Length", "encLE 8 entry.2.2.2"}} {
+			k, f := w(kv[0], kv[1])
+			wi[k] = f
+		}
+		spe := transSpec{
+			leanName: "encodeIndex",
+			binders:  "(comp : Bytes → Bytes) (dbOff dbLen : Nat) (entries : List (Bytes × Bytes × Nat × Nat))",
+			retType:  "Option Bytes",
+			exprMap: map[string]string{"i.Entries": "entries",
+				"len(entry.StartKey) > math.MaxUint16 || len(entry.EndKey) > math.MaxUint16": "(decide (65535 < entry.1.length) || decide (65535 < entry.2.1.length))",
+				"w.Error() != nil": "false", "w.Error()": "WERR", "ErrEntryTooLarge": "ERR", "err != nil": "err", "bytes.Clone(compressed.Bytes())": "(comp buf)"},
+			state: []string{"buf"}, stateLn: []string{"buf"}, stateTy: []string{"Bytes"},
+			binds: map[string][][2]string{"bufferpool.Pool.Get()": {}, "utils.Compress(buf, compressed)": {{"err", "false"}}},
+			wraps: wi,
+			skipStmt: func(st ast.Stmt) bool {
+				s := goStr(st)
+				return strings.HasPrefix(s, "defer bufferpool.Pool.Put(") || s == "w := utils.NewErrorWriter(buf)"
+			},
+			ret: func(vals []string, st []string) string {
+				if len(vals) == 2 && vals[1] == "nil" {
+					return "some " + vals[0]
+				}
+				return "none"
+			},
+			fallOff:  func(st []string) string { return "none" },
+			panicVal: "none",
+		}
+		de := ""
+		erre := fmt.Errorf("Index.Encode not found")
+		if fe != nil {
+			t := &translator{spec: spe}
+			body := t.stmts(fe.Body.List, func() string { return "none" }, "", "")
+			erre = t.err
+			de = fmt.Sprintf("def %s %s : %s :=\n  let buf : Bytes := []\n  %s\n", spe.leanName, spe.binders, spe.retType, body)
+		}
+		if erre != nil {
+			de = fmt.Sprintf("/-- UNTRANSLATABLE: %s -/\ndef encodeIndex : Unit := ()\n", strings.ReplaceAll(erre.Error(), "-/", "- /"))
+		}
+		sb.WriteString(de + "\n")
+
+		fdi := findFunc(p, "Index", "Decode")
+		rd := func(v, lean, kind, arg string) (string, func(string) string) {
+			return "r.Read(binary.LittleEndian, &" + v + ")", func(tail string) string {
+				if kind == "rdN" {
+					// on an error the target keeps the value it had
+					return "(let x := " + kind + " " + arg + " reader rerr; let " + lean + " := (if x.2.2 then " + lean + " else x.1); let reader := x.2.1; let rerr := x.2.2; " + tail + ")"
+				}
+				return "(let x := " + kind + " " + arg + " reader rerr; let " + lean + " := x.1; let reader := x.2.1; let rerr := x.2.2; " + tail + ")"
+			}
+		}
+		wd := map[string]func(string) string{}
+		for _, kv := range [][4]string{{"i.DataBlock.Offset", "dbOff", "rdN", "8"}, {"i.DataBlock.Length", "dbLen", "rdN", "8"},
+			{"startKeyLen", "startKeyLen", "rdN", "2"}, {"startKey", "startKey", "rdB", "startKeyLen"}, {"endKeyLen", "endKeyLen", "rdN", "2"},
+			{"endKey", "endKey", "rdB", "endKeyLen"}, {"offset", "offset", "rdN", "8"}, {"length", "length", "rdN", "8"}} {
+			k, f := rd(kv[0], kv[1], kv[2], kv[3])
+			wd[k] = f
+		}
+		spd := transSpec{
+			leanName: "decodeIndex",
+			binders:  "(decomp : Bytes → Option Bytes) (data : Bytes) (dbOff0 dbLen0 : Nat) (entries0 : List (Bytes × Bytes × Nat × Nat))",
+			retType:  "Option ((Nat × Nat) × List (Bytes × Bytes × Nat × Nat))",
+			exprMap: map[string]string{"err != nil": "err", "bytes.NewReader(buf.Bytes())": "buf", "reader.Len() > 0": "(decide (0 < reader.length))",
+				"r.Error() != nil": "rerr", "r.Error()": "RERR", "string(startKey)": "startKey", "string(endKey)": "endKey", "i.Entries": "entries"},
+			state: []string{"reader", "rerr", "dbOff", "dbLen", "i.Entries"}, stateLn: []string{"reader", "rerr", "dbOff", "dbLen", "entries"},
+			stateTy:  []string{"Bytes", "Bool", "Nat", "Nat", "List (Bytes × Bytes × Nat × Nat)"},
+			zero:     map[string]string{"uint16": "(0 : Nat)", "uint64": "(0 : Nat)"},
+			litTuple: true, loopFuel: "(((decomp data).getD []).length + 1)",
+			binds: map[string][][2]string{"bufferpool.Pool.Get()": {},
+				"utils.Decompress(bytes.NewReader(index), buf)": {{"buf", "((decomp data).getD [])"}, {"err", "(decomp data).isNone"}}},
+			wraps: wd,
+			skipStmt: func(st ast.Stmt) bool {
+				s := goStr(st)
+				return strings.HasPrefix(s, "defer bufferpool.Pool.Put(") || s == "r := utils.NewErrorReader(reader)" ||
+					s == "startKey := make([]byte, startKeyLen)" || s == "endKey := make([]byte, endKeyLen)"
+			},
+			ret: func(vals []string, st []string) string {
+				if len(vals) == 1 && vals[0] == "nil" {
+					return "some ((dbOff, dbLen), entries)"
+				}
+				return "none"
+			},
+			fallOff:  func(st []string) string { return "some ((dbOff, dbLen), entries)" },
+			panicVal: "none",
+		}
+		ddi := ""
+		errdi := fmt.Errorf("Index.Decode not found")
+		if fdi != nil {
+			t := &translator{spec: spd}
+			body := t.stmts(fdi.Body.List, func() string { return "some ((dbOff, dbLen), entries)" }, "", "")
+			errdi = t.err
+			ddi = fmt.Sprintf("def %s %s : %s :=\n  let reader : Bytes := []\n  let rerr : Bool := false\n  let dbOff := dbOff0\n  let dbLen := dbLen0\n  let entries := entries0\n  %s\n", spd.leanName, spd.binders, spd.retType, body)
+		}
+		if errdi != nil {
+			ddi = fmt.Sprintf("/-- UNTRANSLATABLE: %s -/\ndef decodeIndex : Unit := ()\n", strings.ReplaceAll(errdi.Error(), "-/", "- /"))
+		}
+		sb.WriteString(ddi + "\n")
 	}
 	sb.WriteString("end GenCodec\n")
 	if err := os.WriteFile(out, []byte(sb.String()), 0644); err != nil {
